@@ -165,10 +165,15 @@ func (b *batch) Delete(k []byte) error {
 
 func (b *batch) Commit(bool) error {
 	b.mu.Lock()
-	ops := b.ops
-	b.ops = nil
+	ops := append([]KV(nil), b.ops...)
 	b.mu.Unlock()
 	// concurrent Puts arrive in a nondeterministic order; the record is a set
 	sort.SliceStable(ops, func(i, j int) bool { return ops[i].K < ops[j].K })
-	return b.s.write(Rec{Ops: ops})
+	if err := b.s.write(Rec{Ops: ops}); err != nil {
+		return err // like a Pebble batch, a batch whose commit failed keeps its operations and can be committed again
+	}
+	b.mu.Lock()
+	b.ops = nil
+	b.mu.Unlock()
+	return nil
 }
